@@ -11,11 +11,13 @@ import chython.reactor.deprotection as DP
 ID = 'C16'
 RULE = ('corpus / curated molecules x synthetic templates with explicit atom maps covering each patcher branch (identity, '
         'any-atom reuse, element / charge / radical / bond-order change, new atoms, deleted atoms with and without ring-preserved '
-        'paths, masked atoms, stereo keep / override, delete_atoms off), the built-in deprotection rules on their documented '
+        'paths, masked atoms, stereo keep / override incl. labels on ring-closing atoms of the replacement, neutralisation of matched charged '
+        'atoms, delete_atoms off), every template on 39 substrates written for them, the built-in deprotection rules on their documented '
         'examples and on scaffolds, and built-in / synthetic multi-reactant templates with colliding numbers in one-shot and '
-        'exhaustive mode; monitor: boundary recorder on BaseReactor._patcher (mapping used, deleted set); oracle: frame '
+        'exhaustive mode, atom-creating templates run with spectator molecules in three layouts; monitor: boundary recorder on BaseReactor._patcher (mapping used, deleted set); oracle: frame '
         'conditions on (input, mapping, product), own BFS for the detached-fragment closure, product count = distinct matches, '
-        'identity template = input, valence validity, invariance of the product set under renumbering and reactant order; '
+        'identity template = input, valence validity, requested configuration (the replacement read as pattern matches the product on '
+        'its own atoms), unique atom numbers, spectators unchanged, reaction composable, invariance of the product set under renumbering and reactant order; '
         'non-trivial = application with >= 1 match that changes the molecule, distinct by (template, input)')
 ASSUMPTIONS = ['CachedMethods compatibility shim', 'synthetic templates carry explicit maps on every atom (unmapped pattern and '
                'replacement atoms may legitimately share implicit numbers)', 'hydrogen counts of named atoms and their neighbours '
@@ -25,7 +27,7 @@ CONFIG = {
               'floors': {'evaluations': 6000, 'distinct_nontrivial': 900, 'applications.with-match': 1500, 'products.checked': 3000,
                          'recorder.patcher-calls': 3000, 'branch.deleted-fragment': 150, 'branch.masked': 15, 'branch.new-atom': 300,
                          'branch.identity': 200, 'documented.deprotections': 25, 'reactor.reactions': 60, 'numbering.compared': 500, 'reactor.with-spectators': 150, 'reactor.composed': 150, 'branch.stereo-requested': 40}},
-    'thorough': {'shards': 16, 'budget_s': 1800, 'n_mols': 4200,
+    'thorough': {'shards': 16, 'budget_s': 1800, 'n_mols': 4200, 'all_templates': True,
                  'floors': {'evaluations': 25000, 'distinct_nontrivial': 3000, 'applications.with-match': 6000,
                             'products.checked': 15000, 'recorder.patcher-calls': 15000, 'branch.deleted-fragment': 500,
                             'branch.masked': 100, 'branch.new-atom': 3000, 'branch.identity': 2000, 'documented.deprotections': 25,
@@ -567,7 +569,7 @@ def worker(ctx):
             continue
         if m.check_valence():
             continue
-        for name, pat, rep, kwargs, tags in rng.sample(TEMPLATES, 9):
+        for name, pat, rep, kwargs, tags in (TEMPLATES if cfg.get('all_templates') else rng.sample(TEMPLATES, 9)):
             apply_template(ctx, name, pat, rep, kwargs, tags, m, s, rng, numbering=rng.random() < .3)
         if dp and rng.random() < .3:
             name, rule = rng.choice(dp)
